@@ -21,9 +21,10 @@ disagreement of the two oracles is *inconclusive*, never a verdict on ppci.
 Judgement per (grammar, string):
   * builder raised ParserGenerationException (conflict / undefined symbol) or
     anything else: outside the quantifier, counted only;
-  * accepted without conflict: parse accepts <=> oracle derives; any other
+  * accepted without conflict: parse accepts <=> oracle derives; another
     exception or a non-terminating reduce loop (step limit enforced from
-    inside the semantic actions) is a violation;
+    inside the semantic actions) is "not accepted": a violation for a member,
+    only counted for a non-member (the statement is about acceptance);
   * accepted with silently resolved shift/reduce conflicts (set_action keeps
     the shift): accepted => oracle derives (only that direction);
   * whenever parse accepted and the oracle's tree is unique: value == tree.
@@ -614,7 +615,7 @@ def judge_grammar(ctx, m, g, r, is_random):
     for wi, w in enumerate(words):
         cnt = lang.get(w, 0)
         kind, val = parse_one(ctx, parser, budget, w)
-        if both_directions or kind in ("value", "error"):
+        if both_directions or kind == "value":
             m.evals += 1          # an assertion applies to this outcome
         else:
             m.count("strings.rejected_or_looping_without_applicable_assertion")
@@ -641,24 +642,11 @@ def judge_grammar(ctx, m, g, r, is_random):
                     kind2, kind, w, show(g)), {"string": w, "list_lexer": [kind, val], "base_lexer": [kind2, val2]})
         ctxinfo = {"string": " ".join(w), "oracle_tree_count": cnt, "parser": [kind, val],
                    "resolved_shift_reduce_slots": resolved}
-        if kind == "error":
-            if not resolved:
-                m.violation(g, "parse raised %s (neither a value nor ParserException) for %r in %s" % (
-                    val, " ".join(w), show(g)), ctxinfo)
-            else:
-                m.count("resolved.internal_error_not_judged")
-            continue
-        if kind == "loop":
-            # a reduce loop is not an acceptance; with a resolved conflict the statement promises nothing more.
-            # Under the look-ahead findings a cyclic grammar can slip through the conflict detection.
-            if resolved:
-                m.count("resolved.reduce_loop_not_judged")
-            elif skip_complete:
-                for k in skip_complete:
-                    m.count("avoided.%s.reduce_loop_not_judged" % k)
-            else:
-                m.violation(g, "parse does not terminate (reduce loop) for %r in %s" % (" ".join(w), show(g)), ctxinfo)
-            continue
+        if kind in ("error", "loop"):
+            # Neither is an acceptance: judged like a rejection (R: parse accepts <=> oracle derives); a member that
+            # makes the parser loop or crash is "derivable but not accepted", a non-member is only counted.
+            m.count("strings.not_accepted_by_%s%s" % (
+                "reduce_loop" if kind == "loop" else "internal_error", "_member" if cnt else "_non_member"))
         if kind == "value":
             if not cnt:
                 m.violation(g, "parser accepts %r which the grammar does not derive: %s%s" % (
@@ -683,7 +671,9 @@ def judge_grammar(ctx, m, g, r, is_random):
                 m.count("strings.ambiguous_accepted")
                 if not resolved and not (facts["look"] or facts["first"] or facts["accept"]):
                     m.count("strings.ambiguous_accepted_in_clean_grammar_without_known_trigger")
-        else:  # reject
+        else:  # reject, reduce loop or internal error
+            how = {"reject": "rejects", "loop": "loops forever (reduce loop) on",
+                   "error": "raises %s instead of accepting" % val}[kind]
             if not cnt:
                 if both_directions:
                     m.count("strings.reject_both")
@@ -694,8 +684,8 @@ def judge_grammar(ctx, m, g, r, is_random):
                 for k in skip_complete:
                     m.count("avoided.%s.member_rejected_not_judged" % k)
             else:
-                m.violation(g, "parser rejects %r which the grammar derives (%s): %s" % (
-                    " ".join(w), "uniquely" if cnt == 1 else "ambiguously", show(g)), ctxinfo)
+                m.violation(g, "parser %s %r which the grammar derives (%s): %s" % (
+                    how, " ".join(w), "uniquely" if cnt == 1 else "ambiguously", show(g)), ctxinfo)
     if would_differ_complete:
         for k in skip_complete:
             m.count("avoided.%s.grammars_showing_it" % k)
